@@ -1507,9 +1507,12 @@ def unwrap(t: tp.Any) -> tp.Any:
     lt = None
     while lt is not t:
         if should_unwrap(t):
-            lt = t
-            t = t.__args__[0]
-            continue
+            # The qualifier may sit behind a NewType or an alias - `isfinal`/`isclassvartype` see through those.
+            qualified = getattr(_resolve_wrappers(t), "__args__", ())
+            if qualified:
+                lt = t
+                t = qualified[0]
+                continue
         if istypealiastype(t):
             tv = t.__value__
             if issubclass(type(tv), str):
